@@ -139,7 +139,8 @@ def models(prop, tier):
             heap='24g', may_be_unused=['Park', 'Timeout', 'OpenComplete', 'RunDeferred'],
             what='open sequence (provider failure + retry, early/late snapshot), __init_done gate, serial '
                  'notifications: all histories of %d notifications over 3 symmetric endpoint names' % (5 if quick else 6))
-  ap = dict(module='HeapBalancer', cfg='HeapBalancer_ap.cfg', coverage=not quick,
+  ap = dict(module='HeapBalancer', cfg='HeapBalancer_ap.cfg', coverage=False,   # TLC's coverage mode costs 30x on this model
+           
             may_be_unused=['LateArrive', 'AddSink', 'RemoveSink', 'JoinDup', 'LeaveUnknown'],
             what='ApertureBalancerSink (resizing / jitter off), aperture of 2 + 1 idle endpoint, 3 node objects, loads <= 2: '
                  'channels go down / come back, the replacement is pulled into the heap inside __Get (open at once or '
